@@ -48,9 +48,9 @@ CLAIMED = {
  "C15": ("deterministic simulation with fault injection: two real ICE agents on a simulated datagram network (QUdpSocket entry points interposed at link time), every signalling step, delivery, loss of first transmissions, duplication, reordering and timer a scheduler decision, plus a forger without credentials; twin-run safety oracle (same schedule with/without forgeries must be indistinguishable), bounded liveness, priority and data-integrity oracles after the faults stop",
          "seeded search over schedules, loss patterns and forged datagrams; a clean batch is evidence, not proof",
          "UDP (with optional full-cone NAT and a simulated STUN server), clock, timers, randomness and signalling are simulated; no TURN relay"),
- "C19": ("deterministic simulation with fault injection: one in-band transfer per run between the real transfer manager and a scripted peer; seeded block size, file size (block and 16-bit counter boundaries), announcement and one fault on the block sequence, the link or the output device; success => byte-exact copy, no fault => success",
+ "C19": ("deterministic simulation with fault injection: one transfer per run between the real transfer manager and a scripted peer (in-band, or SOCKS5 on the receiving side), or between two real clients; seeded block size, file size (block and 16-bit counter boundaries), announcement and one fault on the block sequence, the link or the output device; success => byte-exact copy, no fault => success",
          "seeded search over (size, block size, announcement, fault kind and position, peer policy) through the real receiver and sender; a clean batch is evidence, not proof",
-         "transport, server relay and the remote party are simulated; SOCKS5 bytestreams are outside the simulation (shared verification path covered through in-band transfers)"),
+         "transport, server relay and the remote party are simulated; the SOCKS5 sending side (QXmppSocksServer) is outside the simulation"),
  "C09": ("deterministic simulation with fault injection: seeded histories of sends, acks (honest/adversarial), link losses and resumptions against an executable XEP-0198 reference model fed from the wire",
          "seeded search over histories and fault sequences with a real client and an independent scripted server; refinement against a small reference model after every step",
          "transport, TLS, clock and server are simulated; server-to-client delivery is element-wise"),
@@ -62,7 +62,7 @@ m = {
  "version": 1,
  "setup_cmd": "./check build",
  "hooks": {"guard": "QXMPP_VERIF",
-           "enable": "no source hook was needed: the simulator uses existing seams (friend class TestClient, public QAbstractEventDispatcher, QSslSocket virtuals, public QXmppIncomingClient/QXmppPasswordChecker/QXmppTrustStorage interfaces) and link-time interposition of non-virtual Qt/libc symbols (clock_gettime, QRandomGenerator::_fillRange, QUuid::createUuid, QSslSocket::isEncrypted/startClientEncryption/connectToHostEncrypted/flush, QUdpSocket I/O, QDnsLookup) inside the qxsim executable; /verif/CMakeLists.txt passes -DQXMPP_VERIF to the static sanitised build of /repo's current tree but no source line depends on it",
+           "enable": "no source hook was needed: the simulator uses existing seams (friend class TestClient, public QAbstractEventDispatcher, QSslSocket virtuals, public QXmppIncomingClient/QXmppPasswordChecker/QXmppTrustStorage interfaces) and link-time interposition of non-virtual Qt/libc symbols (clock_gettime, QRandomGenerator::_fillRange, QUuid::createUuid, QSslSocket::isEncrypted/startClientEncryption/connectToHostEncrypted/flush, QUdpSocket I/O, QDnsLookup, QAbstractSocket I/O of the library's own QXmppSocksClient) inside the qxsim executable; /verif/CMakeLists.txt passes -DQXMPP_VERIF to the static sanitised build of /repo's current tree but no source line depends on it",
            "baseline_off_cmd": "cmake --build /repo/_build -j16 && ctest --test-dir /repo/_build -j1 --timeout 900",
            "source_commits": [], "add_only": True},
  "engines": [{"name": "qxsim", "path": "/verif/build/qxsim", "serves_properties": sorted(CLAIMED.keys()),
